@@ -29,6 +29,16 @@ class BV(V):
         return 'BV(%s:%s)' % (self.e, self.ty)
 
 
+class IV(V):
+    """mathematical integer with the range of its Rust type (int mode: only checked arithmetic and comparisons are modelled)"""
+
+    def __init__(self, e, ty):
+        self.e, self.ty = e, ty
+
+    def __repr__(self):
+        return 'IV(%s:%s)' % (self.e, self.ty)
+
+
 class B(V):
     def __init__(self, e):
         self.e = e
@@ -255,8 +265,10 @@ class Inconclusive(Exception):
 
 
 class Evaluator:
-    def __init__(self, fn, call_models=None, observe=None):
+    def __init__(self, fn, call_models=None, observe=None, int_mode=False):
         self.fn = fn
+        self.int_mode = int_mode
+        self.domain = []
         self.fresh = itertools.count()
         self.observe = observe or (lambda callee: True)
         self.sym_decl = {}
@@ -268,7 +280,11 @@ class Evaluator:
         key = (name, ty)
         if key in self.sym_decl:
             return self.sym_decl[key]
-        if ty in WIDTH:
+        if ty in WIDTH and self.int_mode:
+            x = z3.Int(name)
+            self.domain += [x >= 0, x <= (1 << WIDTH[ty]) - 1]
+            v = IV(x, ty)
+        elif ty in WIDTH:
             v = BV(z3.BitVec(name, WIDTH[ty]), ty)
         elif ty == 'bool':
             v = B(z3.Bool(name))
@@ -420,6 +436,8 @@ class Evaluator:
     # ---- operands / rvalues
     def const(self, tok):
         m = re.match(r'const (-?\d+)_(\w+)$', tok)
+        if m and m.group(2) in WIDTH and self.int_mode:
+            return IV(z3.IntVal(int(m.group(1))), m.group(2))
         if m and m.group(2) in WIDTH:
             return BV(z3.BitVecVal(int(m.group(1)), WIDTH[m.group(2)]), m.group(2))
         m = re.match(r'const (true|false)$', tok)
@@ -455,6 +473,16 @@ class Evaluator:
            'AddWithOverflow', 'SubWithOverflow', 'MulWithOverflow', 'AddUnchecked', 'SubUnchecked', 'MulUnchecked', 'ShlUnchecked', 'ShrUnchecked', 'Offset'}
 
     def binop(self, op, a, b):
+        if isinstance(a, IV) and isinstance(b, IV):
+            x, y = a.e, b.e
+            cmpf = {'Eq': lambda: x == y, 'Ne': lambda: x != y, 'Lt': lambda: x < y, 'Le': lambda: x <= y, 'Gt': lambda: x > y, 'Ge': lambda: x >= y}
+            if op in cmpf:
+                return B(cmpf[op]())
+            hi = (1 << WIDTH[a.ty]) - 1
+            if op in ('AddWithOverflow', 'SubWithOverflow', 'MulWithOverflow'):
+                r = {'A': x + y, 'S': x - y, 'M': x * y}[op[0]]
+                return Tup([IV(r, a.ty), B(z3.Or(r < 0, r > hi))])
+            raise Inconclusive('int mode: wrapping operation %s is not modelled' % op)
         if isinstance(a, B) and isinstance(b, B):
             f = {'Eq': lambda x, y: x == y, 'Ne': lambda x, y: x != y, 'BitAnd': z3.And, 'BitOr': z3.Or, 'BitXor': z3.Xor}.get(op)
             return B(f(a.e, b.e)) if f else Opaque(op)
@@ -586,17 +614,29 @@ class Evaluator:
             a = Adt('struct:' + re.sub(r'::<.*', '', ms.group(1)).strip(), [v for _, v in fields])
             a.names = [n for n, _ in fields]
             return a
-        m3 = re.match(r'([\w:<>, ]+?)(?:::<.*?>)?\((.*)\)$', rv, re.S)
-        if m3:
-            name = m3.group(1)
-            args = [self.operand(p, a) for a in split_top(m3.group(2))]
-            if re.search(r'Option(::<.*>)?::Some$', name) or name.endswith('Some'):
-                return Opt(z3.BoolVal(True), args[0])
-            if name.endswith('::Ok') or name == 'Ok':
-                return Res(z3.BoolVal(True), args[0], None)
-            if name.endswith('::Err') or name == 'Err':
-                return Res(z3.BoolVal(False), None, args[0])
-            return Adt(name, args)
+        if rv.endswith(')') and not rv.startswith('('):
+            # constructor call: NAME(args) where NAME may carry generic arguments with parentheses
+            depth, idx = 0, None
+            for i in range(len(rv) - 1, -1, -1):
+                c = rv[i]
+                if c == ')':
+                    depth += 1
+                elif c == '(':
+                    depth -= 1
+                    if depth == 0:
+                        idx = i
+                        break
+            if idx is not None and idx > 0:
+                name = re.sub(r'::<.*>', '', rv[:idx]).strip()
+                if re.fullmatch(r'[\w:]+', name):
+                    args = [self.operand(p, a) for a in split_top(rv[idx + 1:-1])]
+                    if name.endswith('Some'):
+                        return Opt(z3.BoolVal(True), args[0])
+                    if name.endswith('::Ok') or name == 'Ok':
+                        return Res(z3.BoolVal(True), args[0], None)
+                    if name.endswith('::Err') or name == 'Err':
+                        return Res(z3.BoolVal(False), None, args[0])
+                    return Adt(name, args)
         if re.search(r'::None$', rv) or rv == 'None':
             return Opt(z3.BoolVal(False), None)
         m4 = re.match(r'([\w:]+)$', rv)
@@ -618,6 +658,9 @@ class Evaluator:
             return A[i] if isinstance(A[i], BV) else None
         record = lambda kind, **kw: p.obs.append(dict(kind=kind, callee=fn, args=A, argtoks=argtoks, pc=list(p.pc), **kw))
         m = re.search(r'checked_(add|sub|mul)$', fn)
+        if m and isinstance(A[0], IV) and isinstance(A[1], IV):
+            t = self.binop({'add': 'AddWithOverflow', 'sub': 'SubWithOverflow', 'mul': 'MulWithOverflow'}[m.group(1)], A[0], A[1])
+            return Opt(z3.Not(t.items[1].e), t.items[0])
         if m and bv(0) is not None and bv(1) is not None:
             t = self.binop({'add': 'AddWithOverflow', 'sub': 'SubWithOverflow', 'mul': 'MulWithOverflow'}[m.group(1)], A[0], A[1])
             return Opt(z3.Not(t.items[1].e), t.items[0])
@@ -702,12 +745,16 @@ class Evaluator:
             return A[0]
         if fn.endswith('to_le_bytes') and bv(0) is not None:
             return Adt('le_bytes', [A[0]])
-        def deref_arg(a):
+        def deref_arg(a, tok=None):
             if isinstance(a, Ref):
                 if a.val is not None:
                     return a.val
                 if a.place is not None:
                     return self.read_place(p, a.place)
+            if tok is not None and not isinstance(a, (BV, B)):
+                t = re.sub(r'^(copy|move) ', '', tok.strip())
+                if re.fullmatch(r'_\d+', t) and self.fn.locals.get(t, '').startswith('&'):
+                    return self.read_place(p, '(*%s)' % t)
             return a
         if re.search(r'Zeroizing::<.*>::new$', fn):
             return Adt('Zeroizing', [A[0]])
@@ -718,9 +765,14 @@ class Evaluator:
                 if isinstance(inner, (BV, B)):
                     return Ref(val=inner)
             return Ref(place=A[0].place if isinstance(A[0], Ref) else None, val=None if isinstance(A[0], Ref) and A[0].place else Opaque('zeroizing-inner'))
-        if re.search(r'<(u64|usize|u32) as Shr<u32>>::shr$', fn) and bv(0) is not None and bv(1) is not None:
+        if re.search(r"<&?('\w+ )?(u64|usize|u32) as Shr<&?(u32|usize|u64)>>::shr$", fn):
+            A[0], A[1] = deref_arg(A[0], argtoks[0]), deref_arg(A[1], argtoks[1])
+        if re.search(r"<&?('\w+ )?(u64|usize|u32) as Shr<&?(u32|usize|u64)>>::shr$", fn) and bv(0) is not None and bv(1) is not None:
             w = A[0].e.size()
-            sh = z3.ZeroExt(w - A[1].e.size(), A[1].e)
+            sh = z3.ZeroExt(w - A[1].e.size(), A[1].e) if A[1].e.size() < w else (A[1].e if A[1].e.size() == w else z3.Extract(w - 1, 0, A[1].e))
+            if A[1].e.size() > w:
+                p.asserts.append((z3.ULT(A[1].e, w), 'attempt to shift right with overflow (core::ops::Shr)', 'call', list(p.pc)))
+                p.pc.append(z3.ULT(A[1].e, w))
             p.asserts.append((z3.ULT(sh, w), 'attempt to shift right with overflow (core::ops::Shr)', 'call', list(p.pc)))
             p.pc.append(z3.ULT(sh, w))
             return BV(z3.LShR(A[0].e, sh), A[0].ty)
